@@ -110,7 +110,9 @@ func RunInmemSeq(sc InmemScenario) *inmemResult {
 			res.MaxVal = len(e.Val)
 		}
 	}
-	res.StateKey = "M:" + m.Dump()
+	// the backend's own contents are part of the state (expiry relative to the clock): two histories
+	// the model cannot tell apart may still have left the backend in different states
+	res.StateKey = "M:" + m.Dump() + "|I:" + inmem.VerifSnapshotRel(h0, uint32(time.Now().Unix()))
 	return res
 }
 
